@@ -734,7 +734,7 @@ for j in range(%d):
 print(total, misses, odd)
 result = (total, misses, odd)
 """ % (tag, J, N, N, tag)
-    return {"fam": "gen", "src": src, "opts": dict(ALL_ON)}
+    return {"fam": "gen", "src": src, "opts": dict(ALL_ON), "steps": 4000000}   # (the default budget of 300k steps would stop it early)
 
 
 def gen_calls(rnd, k):
@@ -774,6 +774,23 @@ def gen_calls(rnd, k):
     return {"fam": "gen", "src": "\n".join(lines) + "\n", "opts": dict(ALL_ON)}
 
 
+def gen_busy(rnd, k):
+    """functions that run long enough for the goroutines sharing one compiled program to be inside the same function at
+    the same time (nested, through a callback, and through a comprehension)"""
+    n = rnd.choice([600, 1000, 1500])
+    src = """def work(n):
+    t = 0
+    for i in range(n):
+        t += i %% %d
+    return t
+def outer(n):
+    return work(n) + work(n // 2) + max([n, 1], key = work)
+r = [outer(%d) for _ in range(%d)]
+print(r, sorted([3, 1, 2], key = work))
+""" % (rnd.choice([3, 7, 11]), n, rnd.randint(3, 6))
+    return {"fam": "gen", "src": src, "opts": dict(ALL_ON, Recursion=(k % 2 == 1))}
+
+
 def generate(ctx):
     rnd = random.Random(ctx.seed)
     pool = build_pool(rnd)
@@ -782,6 +799,10 @@ def generate(ctx):
     progs, seen = [], set()
     for k in range(6 if ctx.quick else 40):
         p = gen_big(rnd, k)
+        p["id"] = len(progs) + 1
+        progs.append(p)
+    for k in range(12 if ctx.quick else 60):
+        p = gen_busy(rnd, k)
         p["id"] = len(progs) + 1
         progs.append(p)
     for k in range(40 if ctx.quick else 400):
@@ -895,8 +916,21 @@ def validate(ctx, recs, poolfile, tag):
             raise vlib.MachineryError("TLC validation of %s failed (rc=%s)\n%s" % (f, r["rc"], r["out"][-4000:]))
         ctx.states += r["states"]
         ctx.transitions += r["transitions"]
-        for m in re.finditer(r'<<"BAD", (\d+), (<<.*>>)>>\s*$', r["out"], re.M):
-            bad[int(m.group(1))] = m.group(2)
+        # TLC wraps long values over several lines: join a printed tuple until its << >> are balanced
+        buf = None
+        for line in r["out"].split("\n"):
+            if buf is None:
+                if not re.match(r'<<\s*"BAD"', line):
+                    continue
+                buf = line
+            else:
+                buf += " " + line.strip()
+            if buf.count("<<") <= buf.count(">>"):
+                buf = re.sub(r"\s+>>", ">>", re.sub(r"<<\s+", "<<", re.sub(r"\s+", " ", buf)))
+                m = re.match(r'<<"BAD", (\d+), (<<.*>>)>>\s*$', buf, re.S)
+                if m:
+                    bad[int(m.group(1))] = m.group(2)
+                buf = None
         os.remove(f)
     return bad
 
